@@ -35,6 +35,10 @@ def run(tier, seed, scale):
     chk.require(s.get("budget_regimes", 0) > 500 * min(1.0, scale), "too few steady worker-budget regimes")
     chk.require(s.get("budget_regimes_set_up_by_concurrent_global_control_constructors", 0) > 200 * min(1.0, scale), "too few budget regimes whose limit was set by concurrently constructed global_control objects")
     chk.require(s.get("reserved_slot_entries_by_external_threads", 0) > 1000 * min(1.0, scale), "reserved slots hardly used")
+    chk.require(s.get("quiet_scenarios_in_which_no_enqueue_task_happened", 0) > 800 * min(1.0, scale) and s.get("wakeup_advertisements_in_quiet_scenarios", 0) > 1000 * min(1.0, scale)
+                and s.get("bodies_judged_by_the_no_worker_oracles", 0) > 15000 * min(1.0, scale),
+                "no-worker oracles (limit 1 / one-thread arenas, nothing enqueued): %d quiet scenarios, %d wakeup advertisements in them, %d bodies judged" % (
+                    s.get("quiet_scenarios_in_which_no_enqueue_task_happened", 0), s.get("wakeup_advertisements_in_quiet_scenarios", 0), s.get("bodies_judged_by_the_no_worker_oracles", 0)))
     chk.extra["oracles"] = {k: s.get(k, 0) for k in ("bodies", "allotment_reports_checked", "distinct_limit_demand_vectors", "serializer_reports_checked", "budget_regimes", "budget_regimes_set_up_by_concurrent_global_control_constructors",
                                                      "budget_regimes_skipped_not_drained", "observer_entries", "observer_exits", "reserved_slot_entries_by_external_threads",
                                                      "max_inflight_vs_bound_pct", "max_workers_minus_budget")}
